@@ -3,6 +3,8 @@ package core
 import (
 	"fmt"
 	"math/big"
+	"os"
+	"strings"
 
 	"github.com/cockroachdb/apd/v3"
 )
@@ -21,11 +23,52 @@ func (d Dec) Apd() *apd.Decimal {
 	r.Negative = d.Neg
 	r.Exponent = d.Exp
 	if d.Coeff != "" {
-		if _, ok := r.Coeff.SetString(d.Coeff, 10); !ok {
-			panic("bad coeff " + d.Coeff)
+		// The same coefficient value can be held in three ways: as SetString leaves it (inline
+		// up to 38 digits, on the heap from 39), as arithmetic leaves it (inline whenever it
+		// fits 128 bits) and on the heap although small (what an in-place operation on a large
+		// value leaves behind). Operands are spread over the three, by a function of the
+		// digits alone so that a case still determines its run.
+		switch ReprClass(d.Coeff) {
+		case 1:
+			var t apd.BigInt
+			if _, ok := t.SetString(d.Coeff, 10); !ok {
+				panic("bad coeff " + d.Coeff)
+			}
+			r.Coeff.Set(&t)
+		case 2:
+			if _, ok := r.Coeff.SetString(d.Coeff+sixtyZeros, 10); !ok {
+				panic("bad coeff " + d.Coeff)
+			}
+			r.Coeff.Quo(&r.Coeff, tenTo60)
+		default:
+			if _, ok := r.Coeff.SetString(d.Coeff, 10); !ok {
+				panic("bad coeff " + d.Coeff)
+			}
 		}
 	}
 	return &r
+}
+
+var sixtyZeros = strings.Repeat("0", 60)
+var tenTo60, _ = new(apd.BigInt).SetString("1"+sixtyZeros, 10)
+
+// ReprClass picks the representation of a coefficient: 0 as parsed, 1 as copied by Set
+// (inline if it fits), 2 small-on-heap. It depends on the digits only.
+func ReprClass(coeff string) int {
+	if os.Getenv("VERIF_PLAIN_REPR") != "" {
+		return 0
+	}
+	sum := 0
+	for i := 0; i < len(coeff); i++ {
+		sum += int(coeff[i]-'0') * (i%7 + 1)
+	}
+	switch sum % 6 {
+	case 1:
+		return 1
+	case 2:
+		return 2
+	}
+	return 0
 }
 
 func (d Dec) Big() *big.Int {
